@@ -493,6 +493,89 @@ static void ply_hostile_cases(Out &o, Rng &r, int n, const std::vector<Bytes> &v
   }
 }
 
+
+// ---- boundaries the case splits of the composed PLY proof point at (Proofs/PlyRoundtrip_proofs.v): the first data byte
+//      right behind "end_header\n" being a line end / blank (ParseLine must stop after exactly one '\n'), 0..3 points,
+//      point cloud / mesh without faces / faces using the last point, int32 positions, every colour count, texture
+//      coordinates of each type the header can name (skipped correctly by the reader), bytes following the file
+static void ply_boundary_cases(Out &o, Rng &r, int reps) {
+  static const uint8_t firsts[] = {0x0A, 0x0D, 0x20, 0x09, 0x0B, 0x0C, 0x00, 0x65, 0xFF};
+  for (int rep = 0; rep < reps; rep++)
+  for (uint32_t np = 0; np <= 3; np++) for (int shape = 0; shape < 3; shape++) for (int fb = 0; fb < 9; fb++) {
+    InSpec m; m.np = np; m.is_mesh = shape != 0;
+    const int pdt = r.chance(75) ? DT_FLOAT32 : DT_INT32;
+    m.pos = gen_att(r, GeometryAttribute::POSITION, 3, pdt, np, true, r.chance(50) ? 0 : 1, nullptr);
+    if (np > 0) {
+      Bytes &v0 = m.pos.vals[m.pos.midx(0)];
+      v0[0] = firsts[fb];
+      if (r.chance(50)) v0[1] = (uint8_t)(firsts[fb] == 0x0D ? 0x0A : (r.chance(50) ? 0x0D : 0x0A));   // "\r\n", "\n\r", "\n\n" as data
+      if (r.chance(20)) for (auto &b : v0) b = (uint8_t)(r.chance(50) ? 0x0A : 0x0D);
+    }
+    if (r.chance(50)) m.nrm = gen_att(r, GeometryAttribute::NORMAL, 3, DT_FLOAT32, np, true, r.chance(50) ? 0 : 1, nullptr);
+    if (r.chance(60)) {
+      m.col = gen_att(r, GeometryAttribute::COLOR, 1 + (int)r.below(4), DT_UINT8, np, false, r.chance(50) ? 0 : 1, nullptr);
+      for (auto &v : m.col.vals) for (auto &b : v) if (r.chance(30)) b = (uint8_t)(r.chance(50) ? 0x0A : 0x0D);
+    }
+    if (r.chance(50)) { const int tdt[] = {DT_FLOAT32, DT_FLOAT32, DT_UINT8, DT_INT32};
+      m.tex = gen_att(r, GeometryAttribute::TEX_COORD, 2, tdt[r.below(4)], np, true, r.chance(50) ? 0 : 1, nullptr); }
+    if (shape == 2 && np > 0) {
+      uint32_t nf = 1 + (uint32_t)r.below(3);
+      for (uint32_t f = 0; f < nf; f++) { Tri t{{(uint32_t)r.below(np), (uint32_t)r.below(np), (uint32_t)r.below(np)}}; t[r.below(3)] = np - 1; m.faces.push_back(t); }
+    }
+    Bytes file; bool ok = ply_write(m, &file);
+    o.c("plyw " + U(m.np) + " " + att_tok(m.pos) + " " + att_tok(m.nrm) + " " + att_tok(m.col) + " " + att_tok(m.tex) + " " + infaces_tok(m),
+        ok ? hex(file.data(), file.size()) : "fail");
+    if (!ok) { o.fail("PlyEncoder refused an input inside the theorem's hypotheses: ply " + in_id(m)); continue; }
+    if (np > 0) {   // the byte behind "end_header\n" must be the first position byte
+      std::string s(file.begin(), file.end()); size_t p = s.find("end_header\n");
+      if (p == std::string::npos || p + 11 >= file.size() || file[p + 11] != m.pos.val(0)[0]) { o.fail("first data byte is not where the header ends: ply " + in_id(m)); continue; }
+    }
+    for (int as_mesh = 0; as_mesh < 2; as_mesh++) for (int junk = 0; junk < 2; junk++) {
+      Bytes f2 = file;
+      if (junk) { f2.push_back((uint8_t)(r.chance(50) ? 0x0A : 0x0D)); for (int k = 0; k < (int)r.below(9); k++) f2.push_back((uint8_t)r.next()); }
+      GeoSpec g; std::string res = ply_read_result(f2, as_mesh, &g);
+      o.c("plyr " + S(as_mesh) + " " + hex(f2.data(), f2.size()), res);
+      if (res.compare(0, 3, "ok ") != 0) { o.fail("PLY written by PlyEncoder is not read back (" + res + "): ply " + in_id(m)); continue; }
+      ply_search(o, m, g, as_mesh);
+    }
+  }
+}
+
+// ---- inputs OUTSIDE the hypotheses of the composed PLY theorem that PlyEncoder nevertheless accepts: what happens on the
+//      implementation is recorded as a note (these are reported, not counted as violations: the property quantifies over
+//      float positions / normals and uint8 colours)
+static void ply_accept_probe(Out &o, Rng &r) {
+  struct P { const char *what; int which, ncomp, dtype; } ps[] = {
+    {"float32 colours", 2, 3, DT_FLOAT32}, {"int32 colours", 2, 3, DT_INT32}, {"5-component uint8 colours", 2, 5, DT_UINT8},
+    {"int32 normals", 1, 3, DT_INT32}, {"uint8 normals", 1, 3, DT_UINT8}, {"uint8 positions", 0, 3, DT_UINT8},
+    {"2-component float32 positions", 0, 2, DT_FLOAT32}, {"4-component float32 positions", 0, 4, DT_FLOAT32},
+    {"int16 positions (a type the header cannot name)", 0, 3, DT_INT16}, {"int16 colours (a type the header cannot name)", 2, 3, DT_INT16}};
+  for (auto &p : ps) {
+    InSpec m; m.np = 3; m.is_mesh = true; m.faces.push_back(Tri{{0, 1, 2}});
+    m.pos = gen_att(r, GeometryAttribute::POSITION, p.which == 0 ? p.ncomp : 3, p.which == 0 ? p.dtype : DT_FLOAT32, 3, false, 0, nullptr);
+    if (p.which == 1) m.nrm = gen_att(r, GeometryAttribute::NORMAL, p.ncomp, p.dtype, 3, false, 0, nullptr);
+    if (p.which == 2) m.col = gen_att(r, GeometryAttribute::COLOR, p.ncomp, p.dtype, 3, false, 0, nullptr);
+    Bytes file; bool ok = ply_write(m, &file);
+    std::string outcome;
+    if (!ok) outcome = "PlyEncoder refuses";
+    else {
+      GeoSpec g; std::string res = ply_read_result(file, 1, &g);
+      if (res.compare(0, 3, "ok ") != 0) outcome = "PlyEncoder returns true, PlyDecoder: " + res;
+      else {
+        const AttSpec *gp = find_att(g, GeometryAttribute::POSITION), *gn = find_att(g, GeometryAttribute::NORMAL), *gc = find_att(g, GeometryAttribute::COLOR);
+        bool same = gp && g.faces.size() == 1 && geo_wf(g);
+        bool dropped = (m.nrm.present && !gn) || (m.col.present && !gc);
+        if (same) for (int c = 0; c < 3; c++) {
+          uint32_t b = g.faces[0][c];
+          if (gp->val(b) != m.pos.val(c) || (gn && m.nrm.present && gn->val(b) != m.nrm.val(c)) || (gc && m.col.present && gc->val(b) != m.col.val(c))) same = false;
+        }
+        outcome = std::string("PlyEncoder returns true, PlyDecoder ok, ") + (dropped ? "attribute silently dropped" : (same ? "values preserved" : "VALUES CHANGED"));
+      }
+    }
+    o.note(std::string("OUTSIDE-HYPOTHESES ply ") + p.what + ": " + outcome);
+  }
+}
+
 // ------------------------------------------------------------------------------------------------ STL
 static std::string stl_read_result(const Bytes &file, GeoSpec *out = nullptr) {
   if (file.size() < 6) return "short";
@@ -826,11 +909,13 @@ int main(int argc, char **argv) {
   const bool thorough = !strcmp(argv[1], "thorough");
   Rng r(strtoull(argv[2], nullptr, 10));
   Out o(argv[3]);
-  o.note("C15 tier=" + std::string(argv[1]) + " seed=" + argv[2] + " generator=1");
+  o.note("C15 tier=" + std::string(argv[1]) + " seed=" + argv[2] + " generator=2");
   const int K = thorough ? 8 : 1;
   std::vector<Bytes> plys, stls; std::vector<std::string> objs;
   ply_cases(o, r, 500 * K, 12, &plys);
   ply_cases(o, r, 40 * K, 120, nullptr);
+  ply_boundary_cases(o, r, 2 * K);
+  ply_accept_probe(o, r);
   ply_hostile_cases(o, r, 2500 * K, plys);
   stl_cases(o, r, 500 * K, 12, &stls);
   stl_cases(o, r, 30 * K, 150, nullptr);
